@@ -4,7 +4,9 @@
    variant v (v=4: a successful ConnectionAttemptEvent in mid-stream), dr<v>/de<v> undecodable
    report/event, dM/dL a large report under/over the 640 KiB buffer limit (over: refused like an undecodable one), dK keep-alive, dC<k> command through the driver.
    Every device first receives the connection event of each of its connections (d+<modes> steps: failing
-   connections before the normal one; content 2000+100d+n). dT<k>: a request with a deadline (a Command). The content of step i is i.
+   connections before the normal one; content 2000+100d+n). dT<k>: a request with a deadline (a Command). d@<p><kind><v>: message sent during connection
+   set-up (phase p). dU0/dU1: EdgeX updates the device (same / other address: reconnect, a new connection
+   event). dX: outage, reconnect. dZ: the device is removed, its later steps are void. The content of step i is i.
    The model is run on these Recv events with publisher completions interleaved at random (seeded),
    then drained. answer: "<n> d:RO:i d:REN:i ..." (sorted) "| pending=<n> expected_ok=<0|1>" *)
 open Model
@@ -36,20 +38,39 @@ let scenario toks =
         recvs := Recv (n_of_int d, MReaderEventNotification, Some (n_of_int (2000 + 100 * d + n)), true) :: !recvs
       done
     done;
+    let nconn = Array.make 10 0 in
+    for d = 0 to ndev - 1 do
+      let modes = List.fold_left (fun acc st ->
+          if String.length st > 2 && st.[1] = '+' && Char.code st.[0] - 48 = d
+          then String.sub st 2 (String.length st - 2) else acc) "" steps in
+      nconn.(d) <- String.length modes + 1
+    done;
+    let removed = Array.make 10 false in
     List.iteri (fun i st ->
-        let d = n_of_int (Char.code st.[0] - 48) in
-        let v = if String.length st > 2 then (try int_of_string (String.sub st 2 (String.length st - 2)) with _ -> 0) else 0 in
-        let e = match st.[1] with
-          | 'R' -> Recv (d, MROAccessReport, Some (n_of_int i), false)
-          | 'E' -> Recv (d, MReaderEventNotification, Some (n_of_int i), v = 4)
-          | 'M' -> Recv (d, MROAccessReport, Some (n_of_int i), false)
-          | 'L' | 'r' -> Recv (d, MROAccessReport, None, false)
-          | 'e' -> Recv (d, MReaderEventNotification, None, false)
-          | 'K' -> KeepAliveAck d
-          | 'C' | 'T' -> Command d
-          | '+' -> KeepAliveAck d   (* placeholder: handled above, no effect *)
-          | _ -> failwith ("bad step " ^ st) in
-        recvs := e :: !recvs) steps;
+        let di = Char.code st.[0] - 48 in
+        let d = n_of_int di in
+        (* d@<phase><kind><variant>: the same message, sent while the connection is being set up *)
+        let kind, vs = if st.[1] = '@' then st.[3], String.sub st 4 (String.length st - 4)
+          else st.[1], String.sub st 2 (String.length st - 2) in
+        let v = (try int_of_string vs with _ -> 0) in
+        let newconn () =
+          let n = nconn.(di) in nconn.(di) <- n + 1;
+          Recv (d, MReaderEventNotification, Some (n_of_int (2000 + 100 * di + n)), true) in
+        if not removed.(di) then begin
+          let e = match kind with
+            | 'R' | 'M' -> Recv (d, MROAccessReport, Some (n_of_int i), false)
+            | 'E' -> Recv (d, MReaderEventNotification, Some (n_of_int i), v = 4)
+            | 'L' | 'r' -> Recv (d, MROAccessReport, None, false)
+            | 'e' -> Recv (d, MReaderEventNotification, None, false)
+            | 'K' -> KeepAliveAck d
+            | 'C' | 'T' -> Command d
+            | 'U' -> if v mod 2 = 1 then newconn () else Command d   (* moved to its other address: reconnects *)
+            | 'X' -> newconn ()                                      (* outage: reconnects *)
+            | 'Z' -> removed.(di) <- true; Command d                 (* removed: nothing more from it *)
+            | '+' -> KeepAliveAck d   (* handled above *)
+            | _ -> failwith ("bad step " ^ st) in
+          recvs := e :: !recvs
+        end) steps;
     let recvs = List.rev !recvs in
     (* interleave publisher completions *)
     let s = ref init in
